@@ -59,6 +59,18 @@ pub fn distance_case(cx: &mut Ctx, n: u64, case: &Value) {
         #[allow(deprecated)]
         let legacy = guard(|| { use geo::EuclideanDistance; a.geometry().euclidean_distance(&b.geometry()) });
         judge("distance_legacy_trait", "Geometry(a).euclidean_distance(Geometry(b))".into(), legacy, 1.0);
+        // the deprecated free function nearest_neighbour_distance (R*-tree, vertex-to-segment): the distance of two line
+        // strings that do not meet
+        if let (G::LineString(la), G::LineString(lb)) = (&a, &b) {
+            if num != 0.0 && la.0.len() >= 2 && lb.0.len() >= 2 {
+                #[allow(deprecated)]
+                let nn = guard(|| geo::algorithm::euclidean_distance::nearest_neighbour_distance(la, lb));
+                judge("distance_legacy_trait", "nearest_neighbour_distance(a, b)".into(), nn, 1.0);
+                #[allow(deprecated)]
+                let nn = guard(|| geo::algorithm::euclidean_distance::nearest_neighbour_distance(lb, la));
+                judge("distance_legacy_trait", "nearest_neighbour_distance(b, a)".into(), nn, 1.0);
+            }
+        }
     }
     judge("distance_geometry_enum", "Euclidean.distance(Geometry a, Geometry b)".into(), dist_gg(&a, &b), 1.0);
     judge("distance_geometry_enum", "Euclidean.distance(Geometry b, Geometry a)".into(), dist_gg(&b, &a), 1.0);
